@@ -3112,14 +3112,14 @@ class UTPM(Ring, RawAlgorithmsMixIn):
             count = 0
             for n in range(N):
                 for m in range(n,N):
-                    Abar[m,n] = vbar[count]
+                    Abar[m,n] += vbar[count]
                     count +=1
 
         elif UPLO=='U':
             count = 0
             for n in range(N):
                 for m in range(n,N):
-                    Abar[n,m] = vbar[count]
+                    Abar[n,m] += vbar[count]
                     count +=1
 
         else:
